@@ -260,10 +260,18 @@ def r2_neighbours(ctx, repo, cls, kind):
             return
         call = [c for c in calls_in(p.events[apps[0]].node) if is_method_call(c, "append")][0]
         arg = call.args[0] if call.args else None
+        create_pos = apps[0]
+        if isinstance(arg, ast.Name):
+            # child = Individual(vector); ...children.append(child): the child is created where the local is bound
+            binds = [i for i, e in enumerate(p.events[:apps[0]]) if e.kind == "stmt" and isinstance(e.node, ast.Assign)
+                     and any(access_path(t) == arg.id for t in e.node.targets)]
+            if binds:
+                create_pos = binds[-1]
+                arg = p.events[create_pos].node.value
         if not (isinstance(arg, ast.Call) and arg.args and access_path(arg.args[0]) == vname):
             ctx.inconclusive("R2", construct, where(mod, p.events[apps[0]].node), "appended child is not built from the displaced copy %s" % vname, key="child-count")
             return
-        if not dpos or dpos[0] > apps[0]:
+        if not dpos or dpos[0] > create_pos:
             ctx.violated("R2", construct, where(mod, p.events[apps[0]].node), "child is created before the displacement is applied (constructor copies the vector)", key="child-count")
             return
     ctx.holds("R2", construct, where(mod, inner), "exactly one child per neighbour iteration, built from the displaced copy (%d body paths)" % npaths, key="child-count")
